@@ -19,7 +19,8 @@ func init() {
 			"C10.2 the 'buffer too short' early-out taken before classification uses a threshold K not larger than the smallest complete frame the function can return (contradiction rule: a complete frame must not be withheld); " +
 			"C10.3 ReadFrom hands out s.buff[:n] and advances by the same n; on the incomplete outcome it only appends; on the invalid outcome it returns the error; " +
 			"C10.4 stream reads are full reads: every Read on a net.Conn in the module has its byte count used as the bound of the bytes consumed (a discarded count, or a count compared for equality with the buffer size as an error test, assumes segmentation); the ConnectionBind reply is read from the data connection only through io.ReadFull with exactly-sized buffers and the connection is not handed to a buffering reader; " +
-			"C10.5 the verdict 'not a TURN frame' does not depend on the declared length field or on how many payload bytes have arrived (only on the header bytes that classify the frame and on the header-size thresholds).",
+			"C10.5 the verdict 'not a TURN frame' does not depend on the declared length field or on how many payload bytes have arrived (only on the header bytes that classify the frame and on the header-size thresholds); " +
+			"C10.6 that verdict is reached only after ChannelNumber.Valid (the module's one range predicate) has refused the leading 16 bits: the framer has no second notion of which channel numbers exist.",
 		NotCovered: "segmentation independence as a whole and frame ordering are dynamic; behaviour of net.Conn.Read and of pion/stun's IsMessage beyond its inlined shape.",
 		Run:        runC10,
 	})
@@ -45,6 +46,8 @@ func runC10(c *Ctx) {
 	ruleNoWrap(c, "C10.1w", fns, 0)
 	ruleBounds(c, "C10.1b", fns, 2)
 	ruleProgress(c, "C10.1p")
+
+	ruleFramerClassification(c, "C10.6")
 
 	// ---- C10.2
 	c.Rule("C10.2", "contradiction rule: a return of the 'incomplete' error guarded only by len(b) < K (no classification fact yet) requires K ≤ the lower bound of the frame size on the nil-error returns of the same function", 1)
@@ -497,6 +500,53 @@ func runC10(c *Ctx) {
 		} else {
 			c.Bad("C10.5", fname(consume), "invalid verdict", w.pos(consume.Pos()), bad)
 		}
+	}
+}
+
+// ruleFramerClassification (C10.6): what the stream framer refuses as "not a TURN frame" must
+// be exactly what is neither a STUN message nor ChannelData on a valid channel. The channel
+// side of that is the module's one range predicate, ChannelNumber.Valid (C08.5): a return of
+// the invalid-frame error whose conditions do not depend on Valid(leading 16 bits) was decided
+// by some other, narrower or wider, idea of what a channel number is — frames on valid
+// channels would be refused (or junk accepted) under every segmentation.
+func ruleFramerClassification(c *Ctx, rule string) {
+	w := c.W
+	c.Rule(rule, "classification agreement: every return of the invalid-frame error in consumeSingleTURNFrame is control-dependent (through helpers) on ChannelNumber.Valid applied to the buffer's leading 16 bits — the framer has no second notion of which channel numbers exist", 1)
+	consume := w.Func("proto", "", "consumeSingleTURNFrame")
+	valid := w.Func("proto", "ChannelNumber", "Valid")
+	c.Anchor(rule, "invalid verdict")
+	n := 0
+	for _, r := range returnsOf(consume) {
+		if len(r.Results) < 2 {
+			continue
+		}
+		g := globalLoad(w.resolveLoad(r.Results[1]))
+		if g == nil || !strings.Contains(g.Name(), "Invalid") {
+			continue
+		}
+		n++
+		dep := false
+		for _, f := range w.factsAt(r) {
+			for _, side := range []ssa.Value{f.X, f.Y} {
+				if side == nil || dep {
+					continue
+				}
+				if w.depWalk(side, nil, func(v ssa.Value, _ []*ssa.Call) bool {
+					call, ok := under(v).(*ssa.Call)
+					return ok && call.Call.StaticCallee() == valid
+				}) {
+					dep = true
+				}
+			}
+		}
+		if dep {
+			c.OK(rule, fname(consume), "invalid verdict", w.instrPos(r), "reached only after ChannelNumber.Valid refused the leading 16 bits")
+		} else {
+			c.Bad(rule, fname(consume), "invalid verdict", w.instrPos(r), "this return of the invalid-frame error does not depend on ChannelNumber.Valid of the leading 16 bits: the framer decides by another notion of channel numbers, so ChannelData on some valid channels is refused on a stream (under every segmentation) or junk is taken for a frame", w.factsDesc(r)...)
+		}
+	}
+	if n == 0 {
+		c.Bad(rule, fname(consume), "invalid verdict", w.pos(consume.Pos()), "no return of the invalid-frame error: anchor gone")
 	}
 }
 
